@@ -43,6 +43,8 @@ impl<V: Copy> NfaBuilder<u8, V> {
         requires trie_ok(*old(self)), reach_ok(*old(self)), old(self).states@.len() > 2,
         ensures passes_frame(*old(self), *final(self)), fails_ok(*final(self), false), queue_ok(*final(self), q@),
             final(self).outputs@ == old(self).outputs@,
+            // Aho-Corasick: fail(s) is the state of the longest proper suffix of path(s) that is a trie node
+            ac_fail(*final(self)),
     { unimplemented!() }
 
     #[verifier::external_body]
@@ -57,6 +59,8 @@ impl<V: Copy> NfaBuilder<u8, V> {
         requires queue_ok(*old(self), q@),
         ensures passes_frame(*old(self), *final(self)), nfa_outs_ok(*final(self)),
             forall|s: int| 0 <= s < old(self).states@.len() ==> (#[trigger] final(self).states@[s]).fail == old(self).states@[s].fail,
+            // Aho-Corasick (standard fail links): the output chain of a state lists the registered suffixes of its path, longest first
+            ac_fail(*old(self)) ==> ac_fail(*final(self)) && ac_outs(*final(self)),
     { unimplemented!() }
 }
 
@@ -232,4 +236,42 @@ proof fn lemma_slots_at_least_states<V>(st: Seq<State>, n: NfaBuilder<u8, V>, id
         }
     }
     vstd::set_lib::lemma_len_subset(im, b);
+}
+
+// ---- values and the end-to-end statements ----
+// a registered pattern carries the value of the pair it came from
+spec fn values_are<P: AsRef<[u8]>, V, >(n: NfaBuilder<u8, V>, items: Seq<(P, V)>, k: int) -> bool {
+    forall|j: int| 0 <= j < k && is_registered(n, #[trigger] pat_at(items, j)) ==> reg_out(n, pat_at(items, j)).unwrap().0 == items[j].1
+}
+proof fn lemma_frame_keeps_values<P: AsRef<[u8]>, V>(a: NfaBuilder<u8, V>, b: NfaBuilder<u8, V>, items: Seq<(P, V)>, k: int)
+    requires passes_frame(a, b), add_inv(a), reach_ok(a), values_are(a, items, k),
+    ensures values_are(b, items, k),
+{
+    lemma_frame_keeps_trie(a, b);
+    assert forall|j: int| 0 <= j < k && is_registered(b, #[trigger] pat_at(items, j)) implies reg_out(b, pat_at(items, j)).unwrap().0 == items[j].1 by {
+        let q = pat_at(items, j);
+        assert(walk(b, q) == walk(a, q));
+        lemma_walk_range(a, q);
+        assert(is_registered(a, q));
+    }
+}
+// the three standard searches of the finished automaton, as the iterators see them, equal the property-level semantics
+spec fn searches_ok<V>(st: Seq<State>, outs: Seq<Output<V>>, n: NfaBuilder<u8, V>) -> bool {
+    forall|hay: Seq<u8>|
+        #[trigger] ovl_scan(st, outs, 0, hay, 0) == sem_ovl(n, hay, 0)
+        && nosuf_scan(st, outs, 0, hay, 0) == sem_nosuf(n, hay, 0)
+        && find_stream(st, outs, hay, 0) == sem_find(n, hay, 0)
+}
+proof fn lemma_searches_ok<V>(n: NfaBuilder<u8, V>, st: Seq<State>, idmap: Seq<u32>)
+    requires bw_encodes(st, n, idmap), da_safe(st), nfa_tree(n), trie_ok(n), nfa_links(n, false), nfa_outs_ok(n), ac_fail(n), ac_outs(n),
+    ensures searches_ok(st, n.outputs@, n),
+{
+    assert forall|hay: Seq<u8>|
+        #[trigger] ovl_scan(st, n.outputs@, 0, hay, 0) == sem_ovl(n, hay, 0)
+        && nosuf_scan(st, n.outputs@, 0, hay, 0) == sem_nosuf(n, hay, 0)
+        && find_stream(st, n.outputs@, hay, 0) == sem_find(n, hay, 0) by {
+        theorem_c01_bw(n, st, idmap, hay);
+        theorem_c05_bw(n, st, idmap, hay);
+        theorem_c02_bw(n, st, idmap, hay);
+    }
 }
